@@ -174,7 +174,26 @@ class Machine:
 			return ('int', to_int(v))
 		return v
 
+	def builtin(self, name: str, args: list, guard):
+		if name == 'abs' and len(args) == 1:
+			x = to_int(args[0])
+			res = z3.If(x < bv(0), -x, x)
+			if self.premises is not None:
+				self.premise(z3.And(res >= bv(INT_MIN), res <= bv(INT_MAX)), guard)
+			return ('int', res)
+		if name in ('min', 'max') and len(args) == 2:
+			a, b = to_int(args[0]), to_int(args[1])
+			return ('int', z3.If(a < b, a, b) if name == 'min' else z3.If(a > b, a, b))
+		if name == 'int' and len(args) == 1:
+			return ('int', to_int(args[0]))
+		if name == 'bool' and len(args) == 1:
+			return ('bool', to_bool(args[0]))
+		return None
+
 	def call(self, name: str, args: list, guard):
+		b = self.builtin(name, args, guard)
+		if b is not None:
+			return b
 		if name not in self.functions:
 			raise Unsupported(f'call of {name}')
 		self.depth += 1
